@@ -43,7 +43,11 @@ type Family struct {
 	Name string `json:"name"`
 	N    int    `json:"n"`    // validators: 4 (unit-test network, 6 committee members) or 7 (generated keys, 7 committee members)
 	Vote bool   `json:"vote"` // preamble ends with a vote and the last block of a committee epoch: the validator set changes during the run
+	Sat  bool   `json:"sat"`  // small protocol MaxBlockSystemFee and a catalogue of "big" transactions that saturate it
 }
+
+// SatMaxBlockSystemFee is the protocol MaxBlockSystemFee of saturated families (10 GAS).
+const SatMaxBlockSystemFee = 10_0000_0000
 
 // TxSpec is one transaction of the catalogue.
 type TxSpec struct {
@@ -107,7 +111,12 @@ func NewSetup(fam Family, dir string) (*Setup, error) {
 	case 4:
 		// the unit-test network as it is, except the mempool capacity (50000
 		// preallocated slots per replica are the main cost of creating one)
-		s.Proto = func(c *config.Blockchain) { c.MemPoolSize = 64 }
+		s.Proto = func(c *config.Blockchain) {
+			c.MemPoolSize = 64
+			if fam.Sat {
+				c.MaxBlockSystemFee = SatMaxBlockSystemFee
+			}
+		}
 	case 7:
 		var hexes []string
 		for i := 0; i < 7; i++ {
@@ -255,24 +264,42 @@ func NewSetup(fam Family, dir string) (*Setup, error) {
 		s.Txs = append(s.Txs, TxSpec{Name: name, Bytes: bw.Bytes(), Hash: tx.Hash().StringLE()})
 		return nil
 	}
-	if err := mk("t0", 1, 2, 300000000); err != nil {
-		return nil, err
-	}
-	if err := mk("t1", 2, 3, 200000000); err != nil {
-		return nil, err
-	}
-	if err := mk("t2", 3, 1, 100000000); err != nil {
-		return nil, err
-	}
-	if err := mk("t3", 4, 1, 100000000); err != nil {
-		return nil, err
-	}
-	// t4 conflicts with t0 (Conflicts attribute, other sender, higher fee).
-	t0h, _ := transactionHash(s.Txs[0].Bytes)
-	if err := mk("t4", 5, 1, 100000000, func(t *transaction.Transaction) {
-		t.Attributes = append(t.Attributes, transaction.Attribute{Type: transaction.ConflictsT, Value: &transaction.Conflicts{Hash: t0h}})
-	}); err != nil {
-		return nil, err
+	if fam.Sat {
+		// Two "big" transactions whose system fees together cross the block
+		// limit by one unit, and one small high-priority transaction per
+		// validator (extra network fee: they sort before the big ones).
+		big := chainx.SysFee(SatMaxBlockSystemFee/2 + 1)
+		if err := mk("bigA", 1, 2, 100000000, big); err != nil {
+			return nil, err
+		}
+		if err := mk("bigB", 2, 3, 100000000, big); err != nil {
+			return nil, err
+		}
+		for i := 0; i < fam.N; i++ {
+			if err := mk(fmt.Sprintf("s%d", i), 3+i, 1, 1000000, func(t *transaction.Transaction) { t.NetworkFee += 50000000 }); err != nil {
+				return nil, err
+			}
+		}
+	} else {
+		if err := mk("t0", 1, 2, 300000000); err != nil {
+			return nil, err
+		}
+		if err := mk("t1", 2, 3, 200000000); err != nil {
+			return nil, err
+		}
+		if err := mk("t2", 3, 1, 100000000); err != nil {
+			return nil, err
+		}
+		if err := mk("t3", 4, 1, 100000000); err != nil {
+			return nil, err
+		}
+		// t4 conflicts with t0 (Conflicts attribute, other sender, higher fee).
+		t0h, _ := transactionHash(s.Txs[0].Bytes)
+		if err := mk("t4", 5, 1, 100000000, func(t *transaction.Transaction) {
+			t.Attributes = append(t.Attributes, transaction.Attribute{Type: transaction.ConflictsT, Value: &transaction.Conflicts{Hash: t0h}})
+		}); err != nil {
+			return nil, err
+		}
 	}
 	if err := b.Persist(); err != nil {
 		return nil, err
